@@ -155,47 +155,44 @@ theorem invW_addLookup {s : St} (h : InvW s) (l : Lookup) (n : Nat) (hi : l.ri <
 /-! ### the cache step of decode -/
 
 theorem updateCached_user (rc : Rec) (p : Pw) : (updateCached rc p).user = rc.user := by
-  unfold updateCached; split <;> split <;> rfl
+  unfold updateCached resetFailed swapPw; split <;> split <;> rfl
 
 theorem updateCached_passwd (rc : Rec) (p : Pw) : (updateCached rc p).passwd = p := by
-  unfold updateCached
-  by_cases h : rc.passwd ≠ p
-  · simp only [h, ↓reduceIte]; split <;> rfl
-  · have : rc.passwd = p := by simpa using h
-    simp only [h, ↓reduceIte]; split <;> simp [this]
+  unfold updateCached resetFailed swapPw
+  by_cases h : rc.passwd = p
+  · simp only [h, ↓reduceIte]; split <;> simp [h]
+  · simp [h]
 
 theorem updateCached_queue (rc : Rec) (p : Pw) : (updateCached rc p).queue = rc.queue := by
-  unfold updateCached; split <;> split <;> rfl
+  unfold updateCached resetFailed swapPw; split <;> split <;> rfl
 
 theorem updateCached_expire (rc : Rec) (p : Pw) : (updateCached rc p).expire = rc.expire := by
-  unfold updateCached; split <;> split <;> rfl
+  unfold updateCached resetFailed swapPw; split <;> split <;> rfl
 
 theorem updateCached_pending (rc : Rec) (p : Pw) (h : (updateCached rc p).cred = .pending) : rc.cred = .pending ∧ rc.passwd = p := by
-  unfold updateCached at h
-  by_cases hp : rc.passwd ≠ p
-  · simp only [hp, ↓reduceIte] at h; split at h <;> cases h
-  · have e : rc.passwd = p := by simpa using hp
-    simp only [hp, ↓reduceIte] at h
+  unfold updateCached resetFailed swapPw at h
+  by_cases hp : rc.passwd = p
+  · simp only [hp, ↓reduceIte] at h
     split at h
     · cases h
-    · exact ⟨h, e⟩
+    · exact ⟨h, hp⟩
+  · simp only [hp, ↓reduceIte] at h; cases h
 
 theorem updateCached_ne_failed (rc : Rec) (p : Pw) : (updateCached rc p).cred ≠ .failed := by
-  unfold updateCached
+  unfold updateCached resetFailed
   intro h
   split at h
   · cases h
   · next hf => exact hf h
 
 theorem updateCached_ok (rc : Rec) (p : Pw) (h : (updateCached rc p).cred = .ok) : rc.cred = .ok ∧ rc.passwd = p := by
-  unfold updateCached at h
-  by_cases hp : rc.passwd ≠ p
-  · simp only [hp, ↓reduceIte] at h; split at h <;> cases h
-  · have e : rc.passwd = p := by simpa using hp
-    simp only [hp, ↓reduceIte] at h
+  unfold updateCached resetFailed swapPw at h
+  by_cases hp : rc.passwd = p
+  · simp only [hp, ↓reduceIte] at h
     split at h
     · cases h
-    · exact ⟨h, e⟩
+    · exact ⟨h, hp⟩
+  · simp only [hp, ↓reduceIte] at h; cases h
 
 /-- what `decodeUser` guarantees about the record it links the request to -/
 structure Linked (s' : St) (i : Nat) (u : Name) (p : Pw) : Prop where
@@ -210,7 +207,6 @@ theorem decodeUser_spec (cfg : Cfg) {s : St} (h : InvW s) (u : Name) (p : Pw) :
   · refine ⟨invW_newRec h rfl (by simp), ⟨by simp, by simp, by simp⟩⟩
   · next i hc =>
     have hci := h.cache_ok u i hc
-    dsimp only
     split
     · refine ⟨invW_newRec h rfl (by simp), ⟨by simp, by simp, by simp⟩⟩
     · refine ⟨invW_setRec h hci.1 (updateCached_user _ _) ?_ ?_ ?_, ⟨hci.1, ?_, ?_⟩⟩
@@ -225,22 +221,228 @@ theorem decodeUser_spec (cfg : Cfg) {s : St} (h : InvW s) (u : Name) (p : Pw) :
 
 /-! ### startHelperLookup / the tail of authenticate -/
 
+theorem enqueue_invW {s : St} (h : InvW s) {i : Nat} (hi : i < s.nrec) {r : Req} (hw : WaiterOf (s.recs i) r)
+    (hp : (s.recs i).cred = .pending) : InvW (enqueue s i r) := by
+  unfold enqueue
+  refine invW_setRec h hi rfl ?_ (fun _ => h.pend_lk i hi hp) (fun _ => h.pend_lk i hi hp)
+  intro x hx
+  rcases List.mem_cons.mp hx with hx | hx
+  · subst hx; exact hw
+  · exact h.q_user i hi x hx
+
+theorem submitLookup_invW {s : St} (h : InvW s) {i : Nat} (hi : i < s.nrec) {r : Req} (hw : WaiterOf (s.recs i) r) :
+    InvW (submitLookup s i r) := by
+  unfold submitLookup
+  have h2 := invW_addLookup h { id := s.nextId, ri := i, pw := (s.recs i).passwd, req := r } (s.nextId + 1) hi hw
+  have hmem : ∃ l ∈ s.lookups ++ [{ id := s.nextId, ri := i, pw := (s.recs i).passwd, req := r : Lookup }], l.ri = i :=
+    ⟨_, List.mem_append_right _ (List.mem_singleton.mpr rfl), rfl⟩
+  refine invW_setRec h2 hi rfl ?_ (fun _ => hmem) (fun _ => hmem)
+  intro x hx
+  exact h.q_user i hi x hx
+
 theorem startLookup_invW {s : St} (h : InvW s) {i : Nat} (hi : i < s.nrec) {r : Req} (hw : WaiterOf (s.recs i) r) :
     InvW (startLookup s i r).1 := by
   unfold startLookup
   split
-  · next hp =>
-    refine invW_setRec h hi rfl ?_ (fun _ => h.pend_lk i hi hp) (fun _ => h.pend_lk i hi hp)
-    intro x hx
-    rcases List.mem_cons.mp hx with hx | hx
-    · subst hx; exact hw
-    · exact h.q_user i hi x hx
-  · next hp =>
-    dsimp only
-    have h1 : InvW (setRec s i { s.recs i with cred := .pending }) := by
-      -- temporarily Pending without a lookup: established together with the lookup below
-      refine { lk_lt := h.lk_lt, cache_ok := ?_, lk_user := ?_, q_user := ?_, q_lk := ?_, pend_lk := ?_ }
-      all_goals sorry
-    sorry
+  · next hp => exact enqueue_invW h hi hw hp
+  · exact submitLookup_invW h hi hw
+
+/-- nothing in `startLookup` touches user names, the number of records or the clock -/
+theorem startLookup_frame (s : St) (i : Nat) (r : Req) :
+    (startLookup s i r).1.nrec = s.nrec ∧ (startLookup s i r).1.now = s.now ∧ (startLookup s i r).1.cache = s.cache ∧
+    ∀ j, ((startLookup s i r).1.recs j).user = (s.recs j).user := by
+  unfold startLookup enqueue submitLookup
+  split
+  · refine ⟨rfl, rfl, rfl, ?_⟩
+    intro j; simp only [setRec_recs]; split
+    · next e => subst e; rfl
+    · rfl
+  · refine ⟨rfl, rfl, rfl, ?_⟩
+    intro j; simp only [setRec_recs]; split
+    · next e => subst e; rfl
+    · rfl
+
+theorem tryAuth_invW (cfg : Cfg) {s : St} (h : InvW s) {i : Nat} (hi : i < s.nrec) {r : Req} (hw : WaiterOf (s.recs i) r) :
+    InvW (tryAuth cfg s i r).1 := by
+  unfold tryAuth
+  split
+  · exact h
+  · split
+    · exact startLookup_invW h hi hw
+    · exact startLookup_invW h hi hw
+    · exact startLookup_invW h hi hw
+    · exact h
+
+theorem tryAuth_frame (cfg : Cfg) (s : St) (i : Nat) (r : Req) :
+    (tryAuth cfg s i r).1.nrec = s.nrec ∧ (tryAuth cfg s i r).1.now = s.now ∧ (tryAuth cfg s i r).1.cache = s.cache ∧
+    ∀ j, ((tryAuth cfg s i r).1.recs j).user = (s.recs j).user := by
+  unfold tryAuth
+  split
+  · exact ⟨rfl, rfl, rfl, fun _ => rfl⟩
+  · split
+    · exact startLookup_frame s i r
+    · exact startLookup_frame s i r
+    · exact startLookup_frame s i r
+    · exact ⟨rfl, rfl, rfl, fun _ => rfl⟩
+
+/-- the identity carried by whatever one authentication attempt emits -/
+def OutOk : Out → Prop
+  | .forward r u _ => ∃ p, r.creds = .basic u p
+  | .challenge r (some u) => r.creds = .broken u ∨ ∃ p, r.creds = .basic u p
+  | .challenge r none => r.creds = .none ∨ r.creds = .noScheme ∨ r.creds = .noUser
+  | .submit _ u _ r => ∃ p, r.creds = .basic u p
+  | _ => True
+
+theorem startLookup_outOk (s : St) (i : Nat) (r : Req) (hw : WaiterOf (s.recs i) r) : ∀ o ∈ (startLookup s i r).2, OutOk o := by
+  unfold startLookup
+  intro o ho
+  split at ho
+  · simp only [List.mem_singleton] at ho; subst ho; trivial
+  · simp only [List.mem_singleton] at ho; subst ho; exact hw
+
+theorem tryAuth_outOk (cfg : Cfg) (s : St) (i : Nat) (r : Req) (hw : WaiterOf (s.recs i) r) : ∀ o ∈ (tryAuth cfg s i r).2, OutOk o := by
+  unfold tryAuth
+  intro o ho
+  split at ho
+  · simp only [List.mem_singleton] at ho; subst ho; exact hw
+  · split at ho
+    · exact startLookup_outOk s i r hw o ho
+    · exact startLookup_outOk s i r hw o ho
+    · exact startLookup_outOk s i r hw o ho
+    · simp only [List.mem_singleton] at ho; subst ho; exact Or.inr hw
+
+theorem arrive_invW (cfg : Cfg) {s : St} (h : InvW s) (r : Req) : InvW (arrive cfg s r).1 ∧ ∀ o ∈ (arrive cfg s r).2, OutOk o := by
+  unfold arrive
+  split
+  · next e => exact ⟨h, by intro o ho; simp only [List.mem_singleton] at ho; subst ho; exact Or.inl e⟩
+  · next e => exact ⟨h, by intro o ho; simp only [List.mem_singleton] at ho; subst ho; exact Or.inr (Or.inl e)⟩
+  · next e => exact ⟨h, by intro o ho; simp only [List.mem_singleton] at ho; subst ho; exact Or.inr (Or.inr e)⟩
+  · next u e => exact ⟨h, by intro o ho; simp only [List.mem_singleton] at ho; subst ho; exact Or.inl e⟩
+  · next u p e =>
+    obtain ⟨h1, hl⟩ := decodeUser_spec cfg h u p
+    have hw : WaiterOf ((decodeUser cfg s u p).1.recs (decodeUser cfg s u p).2.1) r := ⟨p, by rw [hl.user]; exact e⟩
+    refine ⟨tryAuth_invW cfg h1 hl.lt hw, ?_⟩
+    intro o ho
+    rcases List.mem_cons.mp ho with ho | ho
+    · subst ho; trivial
+    · exact tryAuth_outOk cfg _ _ r hw o ho
+
+theorem resumeAll_invW (cfg : Cfg) (i : Nat) : ∀ (ws : List Req) {s : St}, InvW s → i < s.nrec → (∀ r ∈ ws, WaiterOf (s.recs i) r) →
+    InvW (resumeAll cfg i s ws).1 ∧ ∀ o ∈ (resumeAll cfg i s ws).2, OutOk o
+  | [], s, h, _, _ => ⟨h, by intro o ho; cases ho⟩
+  | r :: rest, s, h, hi, hw => by
+    have hwr := hw r (List.mem_cons_self ..)
+    have h1 := tryAuth_invW cfg h hi hwr
+    obtain ⟨fn, _, _, fu⟩ := tryAuth_frame cfg s i r
+    have ih := resumeAll_invW cfg i rest h1 (by rw [fn]; exact hi)
+      (by intro x hx; obtain ⟨p, hp⟩ := hw x (List.mem_cons_of_mem _ hx); exact ⟨p, by rw [fu]; exact hp⟩)
+    refine ⟨ih.1, ?_⟩
+    intro o ho
+    rcases List.mem_append.mp ho with ho | ho
+    · exact tryAuth_outOk cfg s i r hwr o ho
+    · exact ih.2 o ho
+
+theorem settle_invW {s : St} (h : InvW s) {l : Lookup} (hl : l ∈ s.lookups) (ok : Bool) : InvW (settle s l ok) := by
+  have hne : (if ok then CredState.ok else CredState.failed) ≠ CredState.pending := by cases ok <;> simp
+  have hsub : ∀ x, x ∈ s.lookups.erase l → x ∈ s.lookups := fun x hx => List.mem_of_mem_erase hx
+  have keep : ∀ j, j ≠ l.ri → (∃ x ∈ s.lookups, x.ri = j) → ∃ x ∈ s.lookups.erase l, x.ri = j := by
+    intro j hj ⟨x, hx, e⟩
+    refine ⟨x, (List.mem_erase_of_ne ?_).mpr hx, e⟩
+    intro hxl; subst hxl; exact hj e.symm
+  unfold settle
+  refine { lk_lt := fun x hx => h.lk_lt x (hsub x hx), cache_ok := ?_, lk_user := ?_, q_user := ?_, q_lk := ?_, pend_lk := ?_ }
+  · intro u j hc
+    have := h.cache_ok u j hc
+    refine ⟨this.1, ?_⟩
+    simp only [setRec_recs]
+    split
+    · next e => subst e; exact this.2
+    · exact this.2
+  · intro x hx
+    have := h.lk_user x (hsub x hx)
+    simp only [setRec_recs]
+    split
+    · next e => rw [e] at this; exact this
+    · exact this
+  · intro j hj r hr
+    simp only [setRec_recs, setRec_nrec] at hr hj ⊢
+    split
+    · next e => simp only [e, ↓reduceIte] at hr; cases hr
+    · next e => simp only [e, ↓reduceIte] at hr; exact h.q_user j hj r hr
+  · intro j hj hq
+    simp only [setRec_recs, setRec_nrec, setRec_lookups] at hq hj ⊢
+    split at hq
+    · exact absurd rfl hq
+    · next e => exact keep j e (h.q_lk j hj hq)
+  · intro j hj hp
+    simp only [setRec_recs, setRec_nrec, setRec_lookups] at hp hj ⊢
+    split at hp
+    · exact absurd hp hne
+    · next e => exact keep j e (h.pend_lk j hj hp)
+
+theorem settle_frame (s : St) (l : Lookup) (ok : Bool) :
+    (settle s l ok).nrec = s.nrec ∧ (settle s l ok).now = s.now ∧ (settle s l ok).cache = s.cache ∧
+    ∀ j, ((settle s l ok).recs j).user = (s.recs j).user := by
+  unfold settle
+  refine ⟨rfl, rfl, rfl, ?_⟩
+  intro j; simp only [setRec_recs]; split
+  · next e => subst e; rfl
+  · rfl
+
+theorem find_mem {s : St} {id : Nat} {l : Lookup} (h : s.lookups.find? (fun l => l.id = id) = some l) : l ∈ s.lookups :=
+  List.mem_of_find?_eq_some h
+
+theorem reply_invW (cfg : Cfg) {s : St} (h : InvW s) (id : Nat) (ok : Bool) :
+    InvW (reply cfg s id ok).1 ∧ ∀ o ∈ (reply cfg s id ok).2, OutOk o := by
+  unfold reply
+  split
+  · exact ⟨h, by intro o ho; cases ho⟩
+  · next l hf =>
+    have hl := find_mem hf
+    have hlt := h.lk_lt l hl
+    have h1 := settle_invW h hl ok
+    obtain ⟨fn, _, _, fu⟩ := settle_frame s l ok
+    have hws : ∀ r ∈ l.req :: (s.recs l.ri).queue, WaiterOf ((settle s l ok).recs l.ri) r := by
+      intro r hr
+      rcases List.mem_cons.mp hr with hr | hr
+      · subst hr; obtain ⟨p, hp⟩ := h.lk_user l hl; exact ⟨p, by rw [fu]; exact hp⟩
+      · obtain ⟨p, hp⟩ := h.q_user l.ri hlt r hr; exact ⟨p, by rw [fu]; exact hp⟩
+    have := resumeAll_invW cfg l.ri (l.req :: (s.recs l.ri).queue) h1 (by rw [fn]; exact hlt) hws
+    refine ⟨this.1, ?_⟩
+    intro o ho
+    rcases List.mem_cons.mp ho with ho | ho
+    · subst ho; trivial
+    · exact this.2 o ho
+
+theorem gc_invW (cfg : Cfg) {s : St} (h : InvW s) : InvW (gc cfg s) := by
+  unfold gc
+  refine { lk_lt := h.lk_lt, cache_ok := ?_, lk_user := h.lk_user, q_user := h.q_user, q_lk := h.q_lk, pend_lk := h.pend_lk }
+  intro u i hc
+  dsimp only at hc
+  split at hc
+  · cases hc
+  · next j hj =>
+    split at hc
+    · cases hc
+    · injection hc with hc; subst hc; exact h.cache_ok u j hj
+
+theorem step_invW (cfg : Cfg) {s : St} (h : InvW s) (e : Event) : InvW (step cfg s e).1 ∧ ∀ o ∈ (step cfg s e).2, OutOk o := by
+  cases e with
+  | arrive r => exact arrive_invW cfg h r
+  | reply id ok => exact reply_invW cfg h id ok
+  | tick d => exact ⟨⟨h.lk_lt, h.cache_ok, h.lk_user, h.q_user, h.q_lk, h.pend_lk⟩, by intro o ho; cases ho⟩
+  | gc => exact ⟨gc_invW cfg h, by intro o ho; cases ho⟩
+
+theorem run_invW (cfg : Cfg) : ∀ (es : List Event) {s : St}, InvW s → InvW (run cfg s es).1 ∧ ∀ o ∈ (run cfg s es).2, OutOk o
+  | [], s, h => ⟨h, by intro o ho; cases ho⟩
+  | e :: es, s, h => by
+    have h1 := step_invW cfg h e
+    have ih := run_invW cfg es h1.1
+    refine ⟨ih.1, ?_⟩
+    intro o ho
+    simp only [run] at ho
+    rcases List.mem_append.mp ho with ho | ho
+    · exact h1.2 o ho
+    · exact ih.2 o ho
 
 end SquidModel.Auth
